@@ -375,7 +375,10 @@ impl RLinkS {
             final(self).flows == old(self).flows,
     { unimplemented!() }
 }
-pub struct ReceiverInner { pub link: RLinkS, pub credit_mode: CreditMode, pub processed: AtomicU32S, pub outgoing: ChanSender<LinkFrame> }
+/// `incomplete_transfer`: the partly received multi-frame delivery `recv` keeps across cancellations (unit REASM); opaque here
+#[verifier::external_body]
+pub struct IncompleteTransferS { _p: u8 }
+pub struct ReceiverInner { pub link: RLinkS, pub credit_mode: CreditMode, pub processed: AtomicU32S, pub outgoing: ChanSender<LinkFrame>, pub incomplete_transfer: Option<IncompleteTransferS> }
 
 impl ReceiverInner {
 //@@ fn file=fe2o3-amqp/src/link/receiver.rs impl=`~impl<L>ReceiverInner<L>where` name=update_credit_if_auto
@@ -418,13 +421,14 @@ impl ReceiverInner {
         old(self).credit_mode is Auto ==> final(self).credit_mode == CreditMode::Auto(credit),                  // [C09.set-credit.auto-max] in Auto mode the explicit credit becomes the new maximum the top-up restores
         !(old(self).credit_mode is Auto) ==> final(self).credit_mode == old(self).credit_mode,
         r is Ok ==> final(self).link.flows@ == old(self).link.flows@.push((Some(credit), Some(false), false, false)),   // [C09.set-credit.flow] set_credit sends exactly one flow granting exactly `credit`, with drain switched off
+        final(self).incomplete_transfer == old(self).incomplete_transfer,                                       // [C16.set-credit.keeps-the-partial-delivery] [C10.set-credit.keeps-the-partial-delivery] changing the credit -- also to zero, to pause the link -- leaves the partly received delivery alone: its remaining frames are already under way and complete it when recv is called again
 //@@ end
 
 //@@ fn file=fe2o3-amqp/src/link/receiver.rs impl=`~impl<L>ReceiverInner<L>where` name=drain
 //@@ subst `&self.outgoing` => `&mut self.outgoing` rule=R9
 //@@ spec
     ensures
-        final(self).processed.v == 0, final(self).credit_mode == old(self).credit_mode,
+        final(self).processed.v == 0, final(self).credit_mode == old(self).credit_mode, final(self).incomplete_transfer == old(self).incomplete_transfer,
         old(self).link.fs.draining ==> r is Ok && final(self).link.flows@ == old(self).link.flows@,              // [C09.drain.idempotent] draining while already draining sends nothing
         !old(self).link.fs.draining && r is Ok ==> final(self).link.flows@ == old(self).link.flows@.push((None::<u32>, Some(true), false, false)),   // [C09.drain.flow] drain sends one flow with drain=true that leaves the credit as it is
 //@@ end
